@@ -190,16 +190,23 @@ func genArgs(t *rapid.T, name string, kinds []string, keys [][]byte) *Args {
 		case "entries":
 			n := rapid.IntRange(1, 3).Draw(t, "nent")
 			used := map[string]bool{}
+			// in a third of the batches the client's entries carry sequence numbers
+			// (read back from a log, copied from another node)
+			seqBase := rapid.SampledFrom([]uint64{0, 0, 0, 0, 1, 2, 57, 1 << 33}).Draw(t, "eseq")
 			for i := 0; i < n; i++ {
 				k, _ := genKeyArg(t, keys, true)
 				if used[string(k)] {
 					continue
 				}
 				used[string(k)] = true
+				var sq uint64
+				if seqBase > 0 {
+					sq = seqBase + uint64(i)
+				}
 				if rapid.IntRange(0, 3).Draw(t, "edel") == 0 {
-					a.Entries = append(a.Entries, EntrySpec{Del: true, Key: k})
+					a.Entries = append(a.Entries, EntrySpec{Del: true, Key: k, Seq: sq})
 				} else {
-					a.Entries = append(a.Entries, EntrySpec{Key: k, Val: clientValue(rapid.IntRange(0, 9).Draw(t, "cv"))})
+					a.Entries = append(a.Entries, EntrySpec{Key: k, Val: clientValue(rapid.IntRange(0, 9).Draw(t, "cv")), Seq: sq})
 				}
 			}
 		}
